@@ -214,7 +214,9 @@ def run_doc(doc, res, rc, bf):
     try:
         t = T(text, **kw)
     except Exception as e:
-        fid = "C05/bare-star-dropped" if isinstance(e, SyntaxError) and has_bare_star_shape(doc) else None
+        # (the generated signature then reads `def d(q='dq', ko)`: CPython's message for exactly that)
+        fid = "C05/bare-star-dropped" if isinstance(e, SyntaxError) and has_bare_star_shape(doc) and (
+            "without a default follows" in str(e) or "non-default argument follows default" in str(e)) else None
         res.violate("compile-raises", "template\n%s\nraised %s: %s" % (text[len(tdoc.MODULE_BLOCK):], type(e).__name__, e), finding=fid,
                     witness="<%def name=\"d(q='dq', *, ko)\">: SyntaxError from the generated module" if fid else None, replay_case=rc)
         return
